@@ -273,6 +273,58 @@ def deps_targets():
                    raises=(), field_types=DEP_FT, note="the first dotted component of a trigger names its top-level module")]
 
 
+# ------------------------------------------------------------------ update: stale protocols are invalidated before reprocessing
+
+def check_protocol_reset_order():
+    """propagate_changes_using_dependencies: every TypeInfo that find_targets_recursive reports as a stale
+    protocol has its subtype caches reset BEFORE any target is reprocessed in that round (a target
+    checked against a stale positive cache entry keeps a removed error alive).  Decided on the source:
+    in the round's block, an unconditional loop `for x in stale_protos: type_state.reset_subtype_caches_for(x)`
+    precedes the first call of reprocess_nodes, and stale_protos is not rebound in between."""
+    import ast
+    import os
+
+    from pyvc.runner import StaticCheck  # noqa: F401
+
+    repo = os.environ.get("VERIF_REPO", "/repo")
+    tree = ast.parse(open(os.path.join(repo, "mypy/server/update.py")).read())
+    fn = next((n for n in tree.body if isinstance(n, ast.FunctionDef) and n.name == "propagate_changes_using_dependencies"), None)
+    if fn is None:
+        return [{"name": "proto-reset/located", "status": "unknown", "where": "propagate_changes_using_dependencies not found"}]
+    loop = next((n for n in fn.body if isinstance(n, ast.While)), None)
+    if loop is None:
+        return [{"name": "proto-reset/located", "status": "unknown", "where": "propagation loop not found"}]
+    body = loop.body
+    var = None
+    for st in body:
+        if isinstance(st, ast.Assign) and isinstance(st.value, ast.Call) and isinstance(st.value.func, ast.Name) and st.value.func.id == "find_targets_recursive" \
+                and isinstance(st.targets[0], ast.Tuple) and len(st.targets[0].elts) == 3 and isinstance(st.targets[0].elts[2], ast.Name):
+            var = st.targets[0].elts[2].id
+    if var is None:
+        return [{"name": "proto-reset/located", "status": "unknown", "where": "the result of find_targets_recursive is not unpacked into three names"}]
+
+    def calls(node, name):
+        return [n for n in ast.walk(node) if isinstance(n, ast.Call) and ((isinstance(n.func, ast.Name) and n.func.id == name) or (isinstance(n.func, ast.Attribute) and n.func.attr == name))]
+
+    first_reprocess = next((k for k, st in enumerate(body) if calls(st, "reprocess_nodes")), None)
+    reset_at = None
+    for k, st in enumerate(body):
+        if isinstance(st, ast.For) and isinstance(st.iter, ast.Name) and st.iter.id == var and isinstance(st.target, ast.Name) and len(st.body) >= 1:
+            first = st.body[0]
+            if isinstance(first, ast.Expr) and calls(first, "reset_subtype_caches_for") and any(isinstance(a, ast.Name) and a.id == st.target.id for c in calls(first, "reset_subtype_caches_for") for a in c.args):
+                reset_at = k
+                break
+    rebound = any(isinstance(st, (ast.Assign, ast.AugAssign)) and any(isinstance(t, ast.Name) and t.id == var for t in (st.targets if isinstance(st, ast.Assign) else [st.target]))
+                  for st in body[(reset_at or 0) + 1:first_reprocess or len(body)])
+    ok = first_reprocess is not None and reset_at is not None and reset_at < first_reprocess and not rebound
+    # refuted only when no reset call at all precedes the reprocessing; any other unrecognised shape (the
+    # reset moved into a helper, a different loop form) is reported undecided, not as a violation
+    any_reset_before = any(calls(st, "reset_subtype_caches_for") or calls(st, "reset_all_subtype_caches") for st in body[:first_reprocess or len(body)])
+    status = "discharged" if ok else "refuted" if (first_reprocess is not None and not any_reset_before) else "unknown"
+    return [{"name": "proto-reset/stale-protocol-caches-reset-before-reprocessing", "status": status, "where": "mypy/server/update.py propagate_changes_using_dependencies",
+             "detail": "" if ok else f"reset loop at statement {reset_at}, first reprocess_nodes at {first_reprocess}", "key": "proto-reset-order", "confirmed": True}]
+
+
 def targets(tier):
     return [
         Target("watch.find_changed.iteration", "mypy.fswatcher:FileSystemWatcher._find_changed", setup_find_changed_iter,
@@ -280,4 +332,4 @@ def targets(tier):
                raises=(), overrides=OV, field_types=FT,
                note="one generic iteration (the loop touches only `path`'s entry and membership: the frame is part of the postcondition); "
                     "the file system is an arbitrary function; equal (size, whole-second mtime) => unchanged is mypy's documented assumption"),
-    ] + watch_set_targets() + clear_targets() + deps_targets()
+    ] + watch_set_targets() + clear_targets() + deps_targets() + [__import__('pyvc.runner', fromlist=['StaticCheck']).StaticCheck('update.protocol_reset_order', check_protocol_reset_order, note='ordering frame decided on the source')]
